@@ -18,13 +18,15 @@ Definition b128_step (st : N * N * list N) (val : N) : N * N * list N :=
 (* the pending byte is appended only when bits are pending (whichByte <> 1) *)
 Definition b128_digits (src : bytes) : list N :=
   let '(which, buf, out) := fold_left b128_step src (1, 0, []) in
-  rev (if negb (N.eqb which 1) then buf :: out else out).
+  rev_append (if negb (N.eqb which 1) then buf :: out else out) [].      (* = rev .., in linear time *)
 
 Definition escape128 (ds : list N) : bytes := map (lookup cb128) ds.
 
 (* Go map lookup: a missing key yields 0; later duplicates overwrite earlier ones *)
+(* (the reversed alphabet is a constant of its own so that the extracted model computes it once, not once per character) *)
+Definition cb128_rev : list N := rev cb128.
 Definition invert128 (c : N) : N :=
-  match index_of (rev cb128) c 0 with
+  match index_of cb128_rev c 0 with
   | Some i => N.of_nat (length cb128) - 1 - i
   | None => 0
   end.
@@ -50,6 +52,6 @@ Definition luci_decode (src : list N) : res bytes :=
   if negb (Nat.eqb (luci_encoded_len dlen) (length src)) then Err (wd "length")
   else
     let '(_, _, out, bad) := fold_left luci_step src (1, 0, [], false) in
-    if bad then Err (wd "bit") else Ok (rev out).
+    if bad then Err (wd "bit") else Ok (rev_append out []).
 
 Definition b128_decode (y : bytes) : res bytes := luci_decode (unescape128 y).
